@@ -3,9 +3,10 @@ import re
 
 from ..ir import AnalysisBroken, strip_targs, qmatch
 from ..graph import Graph
-from ..symb import feasible_armed_reach
+from ..symb import feasible_armed_reach, feasible_reach
+from ..inteval import ieval, pin_conditions
 from ..expr import access_path, path_str, reaching_defs, norm_cond, origins, leaves, defs_in_node
-from .common import strip_casts, short, comparison, once_init
+from .common import strip_casts, short, comparison, once_init, iteration_starts
 
 UNITS = ['sdk/src/resource/resource.cc', 'sdk/src/resource/resource_detector.cc', 'sdk/src/common/env_variables.cc',
          'sdk/src/logs/logger.cc', 'sdk/src/metrics/state/metric_collector.cc', 'sdk/src/trace/span.cc', 'sdk/src/common/disabled.cc']
@@ -153,6 +154,161 @@ def rule_r1(ck, prog, rule='C18.R1'):
     ok = len(finds) == 1 and strip_targs(finds[0]['c']).rsplit('::', 1)[-1] in ('find', 'find_first_of')
     ck.verdict(ok, rule, f, 'pair-split-at-first-equals', finds[0] if finds else None, 'key=value split at the first =' if ok else
                'a key=value pair is not split at the first \'=\': values containing \'=\' end up in the key')
+
+
+WHOLE_CI = ('strcasecmp', '_stricmp', 'stricmp')
+WHOLE_CS = ('strcmp',)
+BOUNDED_CI = ('strncasecmp', '_strnicmp', 'strnicmp')
+BOUNDED_CS = ('strncmp', 'memcmp')
+
+
+def rule_r6(ck, prog, rule='C18.R6'):
+    """Boolean spellings: the store of `true` into the out-parameter of the boolean reader is gated by a *whole-string*,
+    case-insensitive comparison of the raw text with "true" (pinned false => the store is unreachable).  A bounded comparison
+    counts only when its bound is a constant covering the terminator or when an equality of the length with 4 gates the store as well."""
+    f = prog.function('sdk::common::GetBoolEnvironmentVariable')
+    g = Graph(prog, f, inline=None, sync_lambdas=False)
+    rd = reaching_defs(g)
+    out = f.params[1]
+    stores = [p for p in g.points if p.f is f and p.n is not None and p.n['k'] == 'binop' and p.n['op'] == '=' and
+              strip_casts(f, p.n['lhs']).get('id') == out['id'] and strip_casts(f, p.n['rhs'])['k'] == 'lit' and strip_casts(f, p.n['rhs']).get('v') == 1]
+    if not stores:
+        ck.inconclusive(rule, f, 'true-needs-whole-string-match', None, 'no store of the constant true into the out-parameter found')
+        return
+    cmp_calls = []
+    for n in f.nodes:
+        if n['k'] != 'call':
+            continue
+        name = strip_targs(n.get('c', '') or '').rsplit('::', 1)[-1]
+        lits = [f.nodes[i].get('s') for a in n.get('args', []) if a is not None and a >= 0 for i in list(f.subtree(a)) + [a] if f.nodes[i]['k'] == 'str']
+        if name in WHOLE_CI + WHOLE_CS + BOUNDED_CI + BOUNDED_CS and lits:
+            cmp_calls.append((n, name, lits[0]))
+    if not cmp_calls:
+        ck.inconclusive(rule, f, 'true-needs-whole-string-match', None, 'the spelling comparison is not one of the recognised C string comparisons')
+        return
+    pm = f.parent_map()
+
+    def cmp_node(n):
+        # the enclosing `== 0` / `!= 0` / `!x` comparison of the call result
+        x = n['i']
+        while x in pm and f.nodes[pm[x]]['k'] in ('cast', 'paren'):
+            x = pm[x]
+        if x in pm and (comparison(f, pm[x]) or (f.nodes[pm[x]]['k'] == 'unop' and f.nodes[pm[x]]['op'] == '!')):
+            return f.nodes[pm[x]]
+        return f.nodes[x]
+
+    def equal_truth(cn):
+        # the truth value of node cn that means "the strings are equal"
+        if cn['k'] == 'binop' and cn['op'] == '!=':
+            return False
+        if cn['k'] == 'call':
+            return False          # `if (strcasecmp(..))`: non-zero = different
+        return True               # `== 0` or `!x`
+    whole = []
+    size_eq = [n for n in f.nodes if comparison(f, n['i']) and n.get('op') == '==' and
+               any(f.nodes[i]['k'] == 'call' and strip_targs(f.nodes[i].get('c', '')).rsplit('::', 1)[-1] in ('size', 'length') for i in f.subtree(n['i'])) and
+               any(f.nodes[i].get('v') == 4 for i in f.subtree(n['i']))]
+    problems = []
+    for (n, name, lit) in cmp_calls:
+        if lit.lower() != 'true':
+            continue
+        if lit != 'true' and name in WHOLE_CS + BOUNDED_CS:
+            continue
+        if name in WHOLE_CS + BOUNDED_CS:
+            problems.append('%s compares case-sensitively: "TRUE" / "True" are documented spellings' % name)
+            continue
+        if name in WHOLE_CI:
+            whole.append(cmp_node(n))
+            continue
+        # bounded: the bound
+        bound = ieval(g, rd, f, n['args'][2], g.root_ctx, {}) if len(n.get('args', [])) > 2 else None
+        if isinstance(bound, int) and bound >= len(lit) + 1:
+            whole.append(cmp_node(n))
+        elif size_eq:
+            whole.append(cmp_node(n))
+            whole.append(('and', size_eq))
+        else:
+            problems.append('%s is bounded by %s: every prefix of "true" ("t", "tr", "TRU") compares equal' %
+                            (name, bound if bound is not None else 'the length of the raw text'))
+    bad = None
+    if not whole:
+        bad = problems[0] if problems else 'no whole-string comparison with "true"'
+    else:
+        pins = {}
+        for w in whole:
+            if isinstance(w, tuple):
+                continue
+            pins[w['i']] = not equal_truth(w)
+        if feasible_reach(g, [g.entry], stores, pins=pins) is not None:
+            bad = (problems[0] + '; ' if problems else '') + 'true can be stored although the raw text did not compare equal to "true" as a whole'
+        for w in whole:
+            if isinstance(w, tuple) and bad is None:
+                pins2 = {x['i']: False for x in w[1]}
+                if feasible_reach(g, [g.entry], stores, pins=pins2) is not None:
+                    bad = 'a bounded comparison with "true" is not backed by a length test on every path'
+    ck.verdict(bad is None, rule, f, 'true-needs-whole-string-match', stores[0].n,
+               'true is stored only behind a whole-string case-insensitive match of "true"' if bad is None else
+               'the boolean reader accepts more than the documented spellings: ' + bad)
+
+
+def rule_r7(ck, prog, rule='C18.R7'):
+    """key=value lists, as a region table over (position of '=', length of the token): a token with a separator is stored whatever
+    the lengths of its key and value are (`k=` yields the empty value), a token without one is not."""
+    f0 = prog.function('sdk::resource::OTELResourceDetector::Detect')
+    hosts = [f0] + [prog.funcs[n['ck']] for n in f0.nodes if n['k'] == 'call' and n.get('ck') in prog.funcs and prog.funcs[n['ck']].d.get('local') and prog.funcs[n['ck']].blocks]
+    done = False
+    for f in hosts:
+        finds = [n for n in f.nodes if n['k'] == 'call' and n.get('args') and f.nodes[n['args'][0]].get('v') == ord('=') and
+                 strip_targs(n.get('c', '')).rsplit('::', 1)[-1] in ('find', 'find_first_of') and n.get('obj') is not None]
+        if len(finds) != 1:
+            continue
+        fd = finds[0]
+        g = Graph(prog, f, inline=None, sync_lambdas=False)
+        rd = reaching_defs(g)
+        tok = path_str(access_path(f, fd['obj'], g.root_ctx))
+        # the variable the position is kept in
+        posvar = None
+        for n in f.nodes:
+            if n['k'] == 'declstmt':
+                for d in n['decls']:
+                    if d.get('init') is not None and fd['i'] in list(f.subtree(d['init'])) + [d['init']]:
+                        posvar = d
+        loops = [l for l in f.nodes if l['k'] in ('while', 'for', 'forrange', 'do') and fd['i'] in f.subtree(l['body'])]
+        if posvar is None or len(loops) != 1:
+            ck.inconclusive(rule, f, 'every-pair-with-separator-is-stored', fd, 'the position of the separator is not kept in a local / no token loop')
+            return
+        lp = loops[0]
+        body = set(f.subtree(lp['body']))
+        stores = [p for p in g.points if p.f is f and p.n is not None and p.n['i'] in body and p.n['k'] == 'call' and
+                  (p.n.get('op') == '[]' or strip_targs(p.n.get('c', '')).rsplit('::', 1)[-1] in ('emplace', 'insert', 'insert_or_assign', 'SetAttribute', 'try_emplace')) and
+                  p.n.get('obj') is not None and 'map' in (f.nodes[p.n['obj']].get('t') or '') + strip_targs(p.n.get('c', ''))]
+        fpt = [p for p in g.points if p.f is f and p.n is fd]
+        if not stores or not fpt:
+            ck.inconclusive(rule, f, 'every-pair-with-separator-is-stored', fd, 'the insertion into the attribute map was not found')
+            return
+        after = [q for (q, _l) in fpt[0].succ]
+        NPOS = (1 << 64) - 1
+        rows = [((3, 7), True, 'k=v'), ((3, 4), True, 'an empty value ("key=")'), ((1, 2), True, 'a one-character key with an empty value'),
+                ((6, 7), True, 'the separator as last character'), ((NPOS, 5), False, 'no separator')]
+        bad = None
+        for ((pos, size), must, what) in rows:
+            env = {'local:' + posvar['name']: pos, tok + '.size()': size, tok + '.length()': size}
+            pins = pin_conditions(g, rd, f, env)
+            # leave the iteration (reach the loop condition again / the exit) without storing?
+            skip = feasible_reach(g, after, [g.exit], avoid=stores, pins=pins) is not None
+            hit = feasible_reach(g, after, stores, pins=pins) is not None
+            if must and (skip or not hit):
+                bad = 'a token with %s (separator at %d, length %d) can leave the loop body without being stored: the attribute is silently dropped' % (what, pos, size)
+                break
+            if not must and hit:
+                bad = 'a token with %s is stored' % what
+                break
+        ck.verdict(bad is None, rule, f, 'every-pair-with-separator-is-stored', fd,
+                   'tokens with a separator are stored for every key / value length (%d rows), tokens without are skipped' % len(rows) if bad is None else bad)
+        done = True
+        break
+    if not done:
+        raise AnalysisBroken('C18.R7: the key=value list parser of OTELResourceDetector::Detect was not found')
 
 
 def _is_const_default(f, idx):
@@ -356,6 +512,18 @@ def rule_r5(ck, prog, rule='C18.R5'):
     ws = [n for n in f.nodes if n['k'] == 'binop' and n['op'] == '=' and access_path(f, n['lhs'])[-1:] == ('resource_',)]
     ok = bool(ws) and any(f.nodes[i]['k'] == 'call' and strip_targs(f.nodes[i].get('c', '')).endswith('MeterContext::GetResource') for i in f.subtree(ws[0]['rhs']))
     ck.verdict(ok, rule, f, 'metric-batch-resource', ws[0] if ws else None, 'metric batches reference the provider context\'s resource' if ok else 'a metric batch does not reference its provider\'s resource')
+    if ok:
+        g = Graph(prog, f, inline=None, sync_lambdas=False)
+        wp = [p for p in g.points if p.f is f and p.n is not None and p.n['i'] in {w['i'] for w in ws}]
+        rets = g.returns()
+        # the returns that hand out the batch object whose resource_ is assigned (a failure return of an empty result has no batch)
+        bv = strip_casts(f, f.nodes[ws[0]['lhs']].get('base', -1)).get('id') if f.nodes[ws[0]['lhs']]['k'] == 'member' else None
+        rets = [r for r in rets if bv is None or any(f.nodes[i]['k'] == 'ref' and f.nodes[i].get('id') == bv for i in f.subtree(r.n['i']))]
+        reach = g.reachable_from(g.entry, avoid=wp)
+        okp = bool(wp) and bool(rets) and not any(r.id in reach for r in rets)
+        ck.verdict(okp, rule, f, 'metric-batch-resource-on-every-path', (rets[0].n if rets else None),
+                   'every batch Produce returns carries the resource' if okp else
+                   'a path through MetricCollector::Produce returns a batch without setting its resource (e.g. an empty collection): the exporter receives a null resource')
     f = [x for x in prog.funcs.values() if x.cls and x.cls.endswith('sdk::trace::Span') and x.kind == 'ctor'][0]
     sr = [n for n in f.nodes if n['k'] == 'call' and n.get('virt') and strip_targs(n.get('c', '')).endswith('Recordable::SetResource')]
     ok = bool(sr) and any(f.nodes[i]['k'] == 'call' and strip_targs(f.nodes[i].get('c', '')).endswith('Tracer::GetResource') for i in f.subtree(sr[0]['args'][0]))
@@ -399,7 +567,9 @@ def run(ck, prog):
     ck.doc('C18.R2', 'out-parameter typestate of the environment readers and duration helpers; OTEL_SDK_DISABLED through the boolean reader', 13)
     ck.doc('C18.R3', 'errno cleared before every strto* whose errno is read', 2)
     ck.doc('C18.R4', 'digit accumulation bounded; per-unit overflow guard uses the exact tick ratio', 7)
-    ck.doc('C18.R5', 'span / log record / metric batch take the provider\'s resource, before a processor sees them', 4)
+    ck.doc('C18.R5', 'span / log record / metric batch take the provider\'s resource, before a processor sees them; every returned batch carries it', 5)
+    ck.doc('C18.R6', 'boolean spellings: true is stored only behind a whole-string case-insensitive match', 1)
+    ck.doc('C18.R7', 'key=value lists: every token with a separator is stored for every key/value length (region table)', 1)
     with ck.canary('C18.R2'):
         _canary(ck, prog)
     rule_r1(ck, prog)
@@ -408,6 +578,8 @@ def run(ck, prog):
     rule_r3(ck, prog)
     rule_r4(ck, prog)
     rule_r5(ck, prog)
+    rule_r6(ck, prog)
+    rule_r7(ck, prog)
     return {}
 
 
